@@ -51,6 +51,8 @@ type Msg struct {
 	SentSeq     int
 	ProducedSeq int
 	Decided     bool
+	LatReq      bool // link latency already applied to the request / the response
+	LatResp     bool
 	ReadyAt     int64 // not deliverable before (request or response, whichever is pending)
 	HandledBy   *Instance
 	done        chan struct{}
